@@ -92,7 +92,7 @@ def gen_op(rng, name, size="small"):
     if name == "hullpts":
         args[0] = rng.randint(0, 59)
     if name == "cellrow":
-        args[0] = rng.randint(2, 300) if size != "big" else rng.randint(2500, 5500)
+        args[0] = (rng.randint(2, 300) if rng.random() < 0.5 else rng.randint(300, 2600)) if size != "big" else rng.randint(2500, 5500)
         args[1] = rng.randint(0, 31)
     if n == 0:
         return name
